@@ -219,6 +219,10 @@ def run(ctx):
         amp[0, 0] = amp[-1, -1] = 1
         opd = np.array([[rng.randrange(N) for _ in range(n_)] for _ in range(m_)])
         sh = (rng.randint(1, max(1, Kr // os_)), rng.randint(1, max(1, Kc // os_)))
+        if rng.random() < 0.3:
+            # a window larger than the grid on ONE axis only (either one) is refused: there is no Fraunhofer value to put there
+            over = rng.choice((0, 1))
+            sh = tuple((Kr, Kc)[a_] // os_ + rng.randint(1, 3) if a_ == over else rng.randint(1, max(1, (Kr, Kc)[a_] // os_ - 1)) for a_ in (0, 1))
         cases.append({'N': N, 'wf': ox.wf(lam), 'dir': 'p2i-fft', 'thm': 'fold',
                       'steps': [ox.plane('Pupil', amp=amp, opd=opd, px=dx, z=z), ox.fft(du, sh, os_)],
                       'scratch_shape': list(rng.choice(((), (Kr, Kc), (Kr + 3, Kc + 1))))})
@@ -287,6 +291,38 @@ def run(ctx):
     ctx.traces += len(cases)
     ctx.sample({'case': cases[0], 'spec_observations': spec[0]['obs']}, maxn=1)
     ctx.extra['image_to_pupil_cases'] = sum(1 for c in cases if c['dir'] == 'p2i2p')
+    # a plane that is used again after its owner trimmed the tilt fit_tilt recorded on it: the image of the LATER wavefront is the image
+    # of a plane constructed anew with the attributes the plane has now - displaced by the new tilt - and the earlier wavefront's image stays
+    import copy as _copy
+    for segmented in (False, True):
+        shape_ = (16, 16)
+        if segmented:
+            mk_ = np.zeros((2,) + shape_)
+            mk_[0, 3:8, 3:9] = 1
+            mk_[1, 9:14, 8:13] = 1
+            amp_ = mk_.sum(axis=0)
+        else:
+            mk_, amp_ = None, lentil.circle(shape_, 6, antialias=False)
+        r_, c_ = lentil.helper.mesh(shape_)
+        P_ = lentil.Pupil(amplitude=amp_, opd=(2e-6 * r_ - 1e-6 * c_) * 1e-3 * (amp_ != 0), mask=mk_, pixelscale=1e-3, focal_length=2.0)
+        P_.fit_tilt(inplace=True)
+        kw_ = dict(pixelscale=20e-6, shape=32, oversample=1)
+        for step in range(3):
+            ctx.case(('plane-reused-after-tilt-edit', segmented, step))
+            w_now = lentil.Wavefront(1e-6) * P_
+            f_now = lentil.propagate_dft(w_now, **kw_).field
+            # (a plane constructed anew from the public attributes, not a copy of the object: a copy would carry private caches along)
+            Pf_ = lentil.Pupil(amplitude=amp_, opd=np.array(P_.opd), mask=mk_, pixelscale=1e-3, focal_length=2.0)
+            Pf_.tilt = [_copy.copy(t_) for t_ in P_.tilt]
+            f_fresh = lentil.propagate_dft(lentil.Wavefront(1e-6) * Pf_, **kw_).field
+            ok_ = np.allclose(f_now, f_fresh, rtol=1e-12, atol=1e-12 * np.abs(f_fresh).max())
+            P_.tilt[step % len(P_.tilt)].x += 3e-6
+            P_.tilt[0].y -= 2e-6
+            f_again = lentil.propagate_dft(w_now, **kw_).field
+            ok2_ = np.allclose(f_again, f_now, rtol=1e-12, atol=1e-12 * np.abs(f_now).max())
+            if not (ok_ and ok2_):
+                ctx.violation({'kind': 'plane-reused-after-its-recorded-tilt-was-edited', 'segmented': segmented, 'later_wavefront_stale': not ok_, 'earlier_wavefront_moved': not ok2_},
+                              {'step': step}, case=None)
     ctx.rule = ('seeded programs Wavefront*Pupil -> propagate_dft [-> *Image -> propagate_dft]; pupils <= 5x5 [6x6] with off-centre '
                 'support and random phases, per-axis dx/du (alpha_r != alpha_c), oversample 1..3, prop_shape <= shape, masks with '
                 'three interior patterns; non-trivial = window smaller than output, or masked, or oversampled, or non-square pixel')
